@@ -484,7 +484,7 @@ class LoserTree {
     std::vector<Loser> losers; ///< Vector of size 2k containing loser tree nodes.
 
     static uint64_t next_pow2(uint64_t x) {
-        return x == 1 ? 1 : uint64_t(1) << (sizeof(unsigned long long) * 8 - __builtin_clzll(x - 1));
+        return x <= 1 ? 1 : uint64_t(1) << (sizeof(unsigned long long) * 8 - __builtin_clzll(x - 1));
     }
 
     /** Called recursively to build the initial tree. */
